@@ -130,6 +130,9 @@ def constructs(fn: ast.FunctionDef):
                 out.append((n, f.id + '()', ast.unparse(n)))
             elif nm in ('round', 'floor', 'ceil', 'trunc', 'sign', 'heaviside', 'frac_') and isinstance(f, ast.Attribute) and not (isinstance(f.value, ast.Name) and f.value.id in ('math', 'np', 'numpy')):
                 out.append((n, 'zero-derivative', ast.unparse(n)))
+            elif nm in ('histc', 'histogram', 'histogramdd') or (nm == 'bincount' and (any(k.arg == 'weights' for k in n.keywords) or
+                                                                                   len(n.args) >= (3 if (dotted_name(f) or '').startswith('torch.') else 2))):
+                out.append((n, 'no-derivative', ast.unparse(n)))
             elif nm in ('register_hook', 'register_full_backward_hook', 'register_backward_hook'):
                 out.append((n, 'gradient-hook', ast.unparse(n)))
             elif nm == 'requires_grad_' and n.args and isinstance(n.args[0], ast.Constant) and n.args[0].value is False:
@@ -444,6 +447,15 @@ def run(ctx, rep):
                 rep.bad('C12.D', key, W, {'construct': text[:100], 'kind': kind},
                         f"{qual}: `{text[:70]}` is piecewise constant: its derivative is zero, so everything the rounded value depends on stops receiving a gradient through it "
                         f"while the returned value still changes with those parameters")
+                continue
+            if kind == 'no-derivative':
+                ws = [k.value for k in node.keywords if k.arg == 'weights'] or list(node.args[1:]) or list(node.args[:1])
+                if all(shape_derived(w, defs) or literal_only(w) for w in ws):
+                    rep.ok('C12.D', key, W, {'class': 'weights shape-derived / literal'})
+                    continue
+                rep.bad('C12.D', key, W, {'construct': text[:100], 'kind': kind},
+                        f"{qual}: `{text[:70]}` accumulates values with an operation torch has no derivative for: the result still changes with the weights, but back-propagation "
+                        f"through it raises (or the weights' parameters get no gradient)")
                 continue
             if kind == 'factory-scalar':
                 ci_ = owner.get(id(fn))
